@@ -315,7 +315,7 @@ CORPUS = [
     ["http://a.com/s?tag=rock+roll&tag=rock'n'roll", "http://a.com/s?tag=rock%2Broll&tag=rock'n'roll"],
     ["http://a.com/?a+b=1&a*b=2", "http://a.com/?a%2Bb=1&a*b=2", "http://a.com/?a%2bb=1&a*b=2"],
     ["http://a.com/p?a=%2B&b=+", "http://a.com/p?b=+&a=%2B"],
-    # FX-C01-NFKCUSERINFO (formerly KF-C03-6 = KF-C01-5): the unquoted canonical form of a userinfo holding the escapes
+    # FX-C01-194b1c7 (formerly KF-C03-6 = KF-C01-5): the unquoted canonical form of a userinfo holding the escapes
     # of U+FF20 (NFKC: '@') did not parse, so normalize_url / fingerprint_url returned it unchanged
     ["http://%EF%BC%A0x@a.com/p"],
     # FX-C02-f918741 (formerly KF-C03-5): unknown scheme + empty authority
